@@ -39,7 +39,25 @@ func genDelta(t *rapid.T, label string) int64 {
 	return rapid.Int64Range(-int64(48*time.Hour), int64(48*time.Hour)).Draw(t, label+"Free")
 }
 
+var extremeInstants = []string{"9999-12-31T23:59:59Z", "9999-12-31T23:59:59.999999999+00:00", "0001-01-01T00:00:00Z", "0000-01-01T00:00:00Z", "2262-04-11T23:47:16.854775807Z", "1677-09-21T00:12:43.145224192Z", "2400-02-29T12:00:00+14:00", "1969-12-31T23:59:59.999999999Z"}
+
 func renderBound(t *rapid.T, now time.Time, delta int64, defectOK bool, label string) Bound {
+	if rapid.IntRange(0, 11).Draw(t, label+"Extreme") == 0 {
+		// "never expires" / "always valid" style bounds centuries away from the clock
+		txt := rapid.SampledFrom(extremeInstants).Draw(t, label+"ExtremeText")
+		at, err := time.Parse(time.RFC3339, txt)
+		if err == nil {
+			// only the sign of the difference matters to the model; Sub saturates, so derive it from Before/After
+			d := int64(0)
+			switch {
+			case at.After(now):
+				d = 1 << 62
+			case at.Before(now):
+				d = -(1 << 62)
+			}
+			return Bound{DeltaNs: d, Text: txt}
+		}
+	}
 	b := Bound{DeltaNs: delta}
 	at := now.Add(time.Duration(delta))
 	if defectOK && rapid.IntRange(0, 7).Draw(t, label+"Defective") == 0 {
@@ -300,6 +318,23 @@ func TestC05_Grid(t *testing.T) {
 			v++
 			mk(modes[v%3], []int64{d1, d2}, -int64(time.Hour), int64(time.Hour), v%2)
 			mk(modes[v%3], []int64{int64(time.Hour), d1, d2}, -int64(time.Hour), int64(time.Hour), v%2)
+		}
+	}
+	// far-future / far-past bounds crossed with every ordering of the other two
+	far, ago := Bound{DeltaNs: 1 << 62, Text: "9999-12-31T23:59:59Z"}, Bound{DeltaNs: -(1 << 62), Text: "0001-01-01T00:00:00Z"}
+	for _, d := range []int64{-int64(time.Second), -1, 0, 1, int64(time.Second)} {
+		for _, combo := range [][3]int{{0, 1, 2}, {1, 0, 2}, {1, 2, 0}, {2, 1, 0}} {
+			sp := h.BaseSP()
+			c := C05Case{SP: sp, Mode: "response"}
+			near := Bound{DeltaNs: d, Text: h.RenderTime(sp.Now().Add(time.Duration(d)), 0, true, 9)}
+			b := [3]Bound{near, far, ago}
+			c.SC = []Bound{{DeltaNs: 1 << 62, Text: "9999-12-31T23:59:59Z"}}
+			c.NB, c.CN = b[combo[0]], b[combo[1]]
+			if combo[2] == 0 {
+				c.SC = []Bound{{DeltaNs: int64(time.Hour), Text: h.RenderTime(sp.Now().Add(time.Hour), 0, true, 0)}}
+			}
+			finishC05(&c, func(err error) { t.Fatalf("harness: %v", err) })
+			cases = append(cases, c)
 		}
 	}
 	h.RunCases(t, "C05", cases, checkC05)
